@@ -316,6 +316,7 @@ class LoopMixin:
                 st2.dctx = [DecisionCtx(prefix)]
                 st2.assume(guard)
                 n_pc0 = len(st2.pc)
+                n_cnt0 = len(st2.counts)
                 n_eff0 = len(st2.effects)
                 self.st = st2
                 outcome = "normal"
@@ -341,7 +342,7 @@ class LoopMixin:
                 delta = [c for i, c in enumerate(st2.pc) if i >= n_pc0 and i not in st2.assumed]
                 facts = [c for i, c in enumerate(st2.pc) if i >= n_pc0 and i in st2.assumed]
                 results.append(dict(outcome=outcome, payload=payload, cond=z3.And(*delta) if delta else TRUE, st=st2, env=env2,
-                                    effects=st2.effects[n_eff0:], facts=facts))
+                                    effects=st2.effects[n_eff0:], facts=facts, counts=st2.counts[n_cnt0:]))
                 if len(results) > 400:
                     raise Unsupported("loop body has more than 400 paths")
         finally:
@@ -363,6 +364,24 @@ class LoopMixin:
         def gen(t):
             return z3.substitute(t, *self._skolem) if self._skolem else t
 
+        # count terms defined inside the body (lengths of comprehensions over the current element's own lists, ...) keep
+        # their meaning for the generic iteration: re-declare them in the outer state, generalised over g.  Fresh names
+        # are a per-path sequence, so a name is imported only if every body path that creates it defines it the same way.
+        cdefs: dict = {}
+        for r in results:
+            for c in r.get("counts", ()):
+                sig = (c.lid, tuple(str(x) for x in c.pidx), str(c.hi), str(c.cond))
+                cdefs.setdefault(str(c.term), {})[sig] = c
+        for _name, sigs in cdefs.items():
+            if len(sigs) != 1:
+                continue
+            c = next(iter(sigs.values()))
+            if c.lid >= 0 and c.lid not in orig_st.lists and not any(c.lid in r["st"].lists for r in results):
+                continue
+            from .state import CountRec as _CR
+
+            self._pending_counts = getattr(self, "_pending_counts", [])
+            self._pending_counts.append((c, _CR(c.lid, tuple(gen(x) for x in c.pidx), gen(c.hi), c.g, gen(c.cond), gen(c.term))))
         if exits and seg.outer:
             raise Unsupported("early exit from a loop over a nested comprehension")
         if exits:
@@ -371,6 +390,7 @@ class LoopMixin:
             if self.st.branch(n_ex > 0):
                 w = self.first_index(seg.lid, seg.pidx, hi, g, z3.And(seg.cond, ex_cond))
                 self._apply_normal(seg, normals, env, carried, w, gen, level)
+                self._flush_counts()
                 item = self.subst_value(seg.mapv, g, w)
                 self.assign_target(target, item, env)
                 try:
@@ -385,7 +405,14 @@ class LoopMixin:
                 self.st.assume(z3.ForAll([j], z3.Implies(z3.And(j >= 0, j < hi, z3.substitute(seg.cond, (g, j))),
                                                          z3.Not(z3.substitute(ex_cond, (g, j))))))
         self._apply_normal(seg, normals, env, carried, hi, gen, level)
+        self._flush_counts()
         return False
+
+    def _flush_counts(self):
+        for c, rec in getattr(self, "_pending_counts", []):
+            if rec.lid < 0 or rec.lid in self.st.lists:
+                self.st.counts.append(rec)
+        self._pending_counts = []
 
     def _rebinds(self, body, name: str) -> bool:
         for s in body:
